@@ -91,7 +91,7 @@ def run(ctx: Context) -> None:
             v = flow.resolve(r.value) if r.value is not None else None
             if v is not None and isinstance(v, ast.Call) and (dotted(v.func) or '').endswith('SpatialIndexItem'):
                 items.append((r, v))
-        ctx.require(items, f"{fi.short}: no `return SpatialIndexItem(...)` found; re-triage R04.2-R04.4")
+        ctx.need('R04.2', items, f"no `return SpatialIndexItem(...)` found; re-triage R04.2-R04.4", fi)
         for r, item in items:
             lin = arg_or_kw(item, 0, 'linear_index')
             idx = arg_or_kw(item, 1, 'index')
